@@ -164,9 +164,14 @@ def case(ctx, x):
                 return
         # F43: the reference is lost (null) - with the reader's message when the slot is in a simple instance or a head
         # part, silently when it is in another part of a complex instance (F36)
+        # When the lost reference was a REQUIRED attribute the reader files the instance as incomplete, and the library then
+        # refuses to write the exchange file at all ("VerifyInstances: 1 invalid instances in list"): accepted as a consequence
+        # only together with the reader's F43 message.
+        said = any("not a valid type for SELECT" in p for p in probs)
         if "pop:nested-select-complex-ref" in ctx.open_sigs \
                 and all(("not a valid type for SELECT" in p) or re.search(r"expected #\d+, got \('null',\)$", p)
-                        or p.startswith("p21read exit status") or p.startswith("read of a conforming file") for p in probs) \
+                        or p.startswith("p21read exit status") or p.startswith("read of a conforming file")
+                        or (said and (p == "no output file written" or p.startswith("write reported severity"))) for p in probs) \
                 and p21gen.has_nested_select_complex_ref(expmodel.Schema(ctx.lib["schema"]), pop):
             ctx.known("pop:nested-select-complex-ref")
             return
